@@ -1331,6 +1331,10 @@ def mon_C18(blocks):
                 for c in live_cookies(b):
                     if c["value"] != rid and c["value"] not in b.store:
                         out.append(Violation(b.idx, "live cookie carries %s which is not a live id" % c["value"]))
+                    rec = b.store.get(c["value"])
+                    if rec and rec != "undecodable" and rec["rf"] != "-" and not isinstance(b.frozen, int):
+                        # the id of a session is its CURRENT id: a replaced id (a record that refers on) is on its way out
+                        out.append(Violation(b.idx, "live cookie carries the replaced id %s (its record refers on to %s), not the session's current id" % (c["value"], rec["rf"])))
             dels = [c for c in b.cks if c["value"] == "deleted"]
             if dels:
                 d, why = verdict(b)
